@@ -56,6 +56,21 @@ func (c *valueArrayCache) shrink(newlen int) {
 	}
 }
 
+func (o *objectGoArrayReflect) setReflectValue(v reflect.Value) {
+	o.objectGoReflect.setReflectValue(v)
+	// wrappers of nested compound elements handed out earlier must follow
+	l := v.Len()
+	for i, w := range o.valueCache {
+		if w != nil {
+			if i < l {
+				w.setReflectValue(v.Index(i))
+			} else {
+				o.valueCache[i] = nil
+			}
+		}
+	}
+}
+
 func (o *objectGoArrayReflect) _init() {
 	o.objectGoReflect.init()
 	o.class = classArray
